@@ -139,8 +139,22 @@ def insert_exc_checks(b, maythrow, ret_c, R, fname):
         # for/while/if head the check would change control flow -> refuse
         s = max(b.rfind(";", 0, m.start()), b.rfind("{", 0, m.start()), b.rfind("}", 0, m.start()))
         head = b[s + 1:m.start()]
-        if re.search(r"\b(for|while|if|else)\b", head):
-            raise ExtractionBreak("%s: may-throw call %s in a braceless controlled statement" % (fname, m.group(1)))
+        mh = None
+        for mh in re.finditer(r"\b(if|for|while)\s*\(|\belse\b", head):
+            pass
+        if mh is not None:
+            # braceless controlled statement: wrap `stmt;` in braces so that the unwinding check stays under the same control
+            if mh.group(0).strip() == "else":
+                st_start = s + 1 + mh.end()
+            else:
+                st_start = match_close(b, s + 1 + mh.end() - 1) + 1
+            if re.search(r"\b(if|for|while|else)\b", b[st_start:m.start()]):
+                raise ExtractionBreak("%s: may-throw call %s under nested braceless control" % (fname, m.group(1)))
+            ins = " if (verif_exc) { %s } }" % ret_default(ret_c)
+            b = b[:st_start] + " {" + b[st_start:k + 1] + ins + b[k + 1:]
+            pos = k + 1 + len(ins) + 2
+            cnt += 1
+            continue
         ins = " if (verif_exc) { %s }" % ret_default(ret_c)
         b = b[:k + 1] + ins + b[k + 1:]
         pos = k + 1 + len(ins)
